@@ -156,6 +156,13 @@ Proof. exact SafeFinalOwn.owned_field_freed. Qed.
 Print Assumptions C04_last_owner_recursive_partial.
 
 (** ** ... recursively, relative to ONE explicit frame hypothesis (SafeFinalOwn2.v).
+    SUPERSEDED by Props/C04sole.v: [C04sole.C04_last_owner_recursive] is the theorem below with the
+    hypothesis [SoleFrame K P] REMOVED (proved in Sole*.v).  [SoleFrame] exactly as stated here
+    turned out to be false for one activation kind (a pending [KStore] into a field of an object
+    that became solely owned while the store's value was being allocated; executed counterexample
+    in SoleCex.v); the frame is proved in the form [C04sole.C04_sole_frame], with a side condition
+    on the call's arguments that holds wherever the recursion needs it.  The two theorems below
+    are kept as pinned intermediate results.
     [SolelyOwned K m o t] (inductive): [t] is reached from [o] through strong fields and every
     object on the way, [t] included, satisfies [sole_at]: allocated, alive, strong count 1, not
     linked in a collector list (IL/IQ), no finalizer to run ([k_fin K && needs_fin = false]), and
